@@ -124,6 +124,49 @@ def _local_ctor(P, fi, name_node):
     return kinds.pop() if len(kinds) == 1 else None
 
 
+def _param_always_dataset(P, fi, pname, depth=0):
+    """the parameter `pname` of a helper the rules do not know by name (an extracted block) is a Dataset when every call site of the helper in the package
+    passes the caller's own Dataset (`self` inside Dataset / DatasetAxes, a freshly constructed Dataset, or such a parameter in turn)"""
+    from ..rules import known_functions
+    if fi.qualname in known_functions() or pname not in fi.params or depth > 2:
+        return False
+    pos = fi.params.index(pname)
+    method = fi.cls is not None
+    sites = []
+    for g in P.functions.values():
+        if g.module is not fi.module and not method:
+            continue
+        for n in ast.walk(g.node):
+            if not isinstance(n, ast.Call):
+                continue
+            if not method and isinstance(n.func, ast.Name) and n.func.id == fi.name and g.module.functions.get(fi.name) is fi:
+                sites.append((g, n, pos))
+            elif method and isinstance(n.func, ast.Attribute) and n.func.attr == fi.name and isinstance(n.func.value, ast.Name) and n.func.value.id == 'self' \
+                    and g.cls is not None and fi.cls in g.cls.mro:
+                sites.append((g, n, pos - 1))
+        # (a helper that is handed around as a value is not resolved: no site, no claim)
+        for n in ast.walk(g.node):
+            if isinstance(n, ast.Name) and n.id == fi.name and isinstance(n.ctx, ast.Load) and not method and g.module is fi.module \
+                    and not any(isinstance(c, ast.Call) and c.func is n for c in ast.walk(g.node)):
+                return False
+    if not sites:
+        return False
+    for g, n, i in sites:
+        if any(isinstance(a, ast.Starred) for a in n.args):
+            return False
+        arg = n.args[i] if 0 <= i < len(n.args) else next((k.value for k in n.keywords if k.arg == pname), None)
+        if not isinstance(arg, ast.Name):
+            return False
+        if arg.id == 'self' and g.cls is not None and g.cls.qualname in ('dimarray.dataset.Dataset', 'dimarray.dataset.DatasetAxes'):
+            continue
+        if _local_ctor(P, g, arg) == 'dataset':
+            continue
+        if arg.id in g.params and _param_always_dataset(P, g, arg.id, depth + 1):
+            continue
+        return False
+    return True
+
+
 def rule_who_may_write(ctx):
     ctx.rule('R2', 'who may write ._values / ._axes; count-changing mutators on an array\'s Axes', 12)
     P = ctx.P
@@ -152,6 +195,8 @@ def rule_who_may_write(ctx):
                 ctor = _local_ctor(P, fi, owner) if isinstance(owner, ast.Name) else None
                 if in_dataset or ctor in ('ondisk', 'dataset'):
                     continue     # the Dataset's own axes list (C13) / on-disk store
+                if isinstance(owner, ast.Name) and owner.id in fi.params and _param_always_dataset(P, fi, owner.id):
+                    continue     # the same, in a helper that is only ever handed the Dataset itself
                 ctx.violated('R2', fi, node, 'count-changing mutation of an array\'s axes list in place: the number of axes no longer '
                              'matches the number of dimensions', node=node)
             if isinstance(node, ast.Delete):
